@@ -331,10 +331,28 @@ class Body:
             if len(ds) != 1 or self.defs().get(("s", l)):
                 continue
             dcand.add(l)
+        KEEPS_VARIANT = ("::as_mut", "::as_ref", "::as_deref", "::as_deref_mut", "::iter", "::iter_mut", "::is_some", "::is_none", "::is_ok", "::is_err", "::is_some_and", "::is_none_or", "::as_slice", "::as_mut_slice")
         for b in range(self.n):
             for st in self.blocks[b]["s"]:
                 if st["k"] == "assign" and st["rv"]["k"] in ("ref", "rawptr") and st["rv"]["pl"]["l"] in dcand and not st["rv"]["pl"].get("p") and st["rv"].get("mut", True):
-                    dcand.discard(st["rv"]["pl"]["l"])
+                    # a whole `&mut` borrow may change the variant (`take()`, `insert(..)`), unless it goes straight into a
+                    # method that cannot (`opt.as_mut()`)
+                    tmp = st["pl"]["l"] if not st["pl"].get("p") else None
+                    t_ = self.blocks[b]["t"]
+                    harmless = (
+                        tmp is not None
+                        and len(self.defs().get(tmp, [])) == 1
+                        and t_["k"] == "call"
+                        and (t_.get("callee") or "").startswith(("core::option::Option", "core::result::Result"))
+                        and (t_.get("callee") or "").endswith(KEEPS_VARIANT)
+                        and t_["args"]
+                        and t_["args"][0].get("k") == "move"
+                        and t_["args"][0]["pl"]["l"] == tmp
+                        and not t_["args"][0]["pl"].get("p")
+                        and sum(1 for bb in range(self.n) for a in (self.blocks[bb]["t"].get("args") or []) if a.get("k") in ("move", "copy") and a["pl"]["l"] == tmp) == 1
+                    )
+                    if not harmless:
+                        dcand.discard(st["rv"]["pl"]["l"])
             t = self.blocks[b]["t"]
             if t["k"] == "call":
                 for a in t["args"]:
